@@ -698,6 +698,11 @@ func (s *ScopedKeyManager) DeriveFromKeyPathCache(
 	watchOnly := s.rootManager.WatchOnly()
 	private := !s.rootManager.IsLocked() && !watchOnly
 
+	// An imported watch-only account has no private key to derive from.
+	if acctInfo.acctKeyPriv == nil {
+		return nil, managerError(ErrWatchingOnly, errWatchingOnly, nil)
+	}
+
 	// Now that we have the account information, we can derive the key
 	// directly.
 	addrKey, err := s.deriveKey(acctInfo, kp.Branch, kp.Index, private)
